@@ -982,14 +982,46 @@ pub fn check_output(which: &str, text: &str, comp: &BTreeMap<String, Val>) -> Ve
     let items: Vec<Item> = match parse_items(text) {
         Ok(i) => i,
         Err(e) => {
-            out.push(viol(
-                "R2",
-                "-",
-                "unparsable-output",
-                "",
-                format!("generator output is not a sequence of table items: {}", e),
-            ));
-            return out;
+            // Not the plain item syntax: the output may still be perfectly good Rust (macro DSL,
+            // const-fn constructors, helper items). Ask the compiler what it denotes (ce.rs).
+            if text.trim().is_empty() {
+                out.push(viol("R2", "-", "no-output", "", "generator produced no output".to_string()));
+                return out;
+            }
+            match crate::ce::evaluate(which, text) {
+                crate::ce::Outcome::Tables(m) => m
+                    .into_iter()
+                    .map(|(name, value)| Item {
+                        name,
+                        kind: "static".into(),
+                        ty: String::new(),
+                        declared_len: None,
+                        value,
+                    })
+                    .filter(|it| {
+                        // the dump prints all ten tables; only this generator's are its output
+                        let mine: &[&str] = if which == "layout" { &LAYOUT_ITEMS } else { &LIKELY_ITEMS };
+                        mine.contains(&it.name.as_str())
+                    })
+                    .collect(),
+                crate::ce::Outcome::DoesNotCompile(msg) => {
+                    out.push(viol(
+                        "R2",
+                        "-",
+                        "output-does-not-compile",
+                        "",
+                        format!(
+                            "generator output is neither a plain sequence of table items ({}) nor does it compile in place of the checked-in file: {}",
+                            e, msg
+                        ),
+                    ));
+                    return out;
+                }
+                crate::ce::Outcome::Unavailable(msg) => {
+                    crate::ce::note_unjudged(&format!("{} (item reader said: {})", msg, e));
+                    return out;
+                }
+            }
         }
     };
     let expected: &[&str] = if which == "layout" { &LAYOUT_ITEMS } else { &LIKELY_ITEMS };
@@ -1070,19 +1102,29 @@ pub fn check_output(which: &str, text: &str, comp: &BTreeMap<String, Val>) -> Ve
 
 /// T1 (harness self-check, not a property clause): the checked-in source text parses to the
 /// compiled statics. A mismatch means the hook does not show what the files say.
-pub fn source_text_agrees(repo_crate: &std::path::Path, comp: &BTreeMap<String, Val>) -> Result<(), String> {
+/// T1: the checked-in table source, read by the same tolerant reader, equals the statics seen
+/// through the hook. Returns the files that could not be read as plain items (tables written
+/// through macros, const fns, ...): for those the hook is the only view and T1 is skipped.
+pub fn source_text_agrees(repo_crate: &std::path::Path, comp: &BTreeMap<String, Val>) -> Result<Vec<String>, String> {
+    let mut skipped = vec![];
     for (file, names) in [
         ("src/likelysubtags/tables.rs", &LIKELY_ITEMS[..]),
         ("src/layout_table.rs", &LAYOUT_ITEMS[..]),
     ] {
         let p = repo_crate.join(file);
         let text = std::fs::read_to_string(&p).map_err(|e| format!("{}: {}", p.display(), e))?;
-        let items = parse_items(&text).map_err(|e| format!("{}: {}", p.display(), e))?;
+        let items = match parse_items(&text) {
+            Ok(i) => i,
+            Err(e) => {
+                skipped.push(format!("{}: not plain items ({})", file, e));
+                continue;
+            }
+        };
         for n in names {
-            let it = items
-                .iter()
-                .find(|i| i.name == *n)
-                .ok_or_else(|| format!("{}: item {} not found", p.display(), n))?;
+            let Some(it) = items.iter().find(|i| i.name == *n) else {
+                skipped.push(format!("{}: item {} is not written as a plain item", file, n));
+                continue;
+            };
             if Some(&it.value) != comp.get(*n) {
                 return Err(format!(
                     "{}: item {} as written differs from the compiled static read through the hook",
@@ -1092,5 +1134,5 @@ pub fn source_text_agrees(repo_crate: &std::path::Path, comp: &BTreeMap<String, 
             }
         }
     }
-    Ok(())
+    Ok(skipped)
 }
